@@ -72,6 +72,7 @@ def main(argv=None):
     ap.add_argument('--seed', type=int, default=1)
     ap.add_argument('--stats')
     ap.add_argument('--tier', default='thorough')
+    ap.add_argument('--workdir', help='directory for the libFuzzer corpus (removed by the caller)')
     args = ap.parse_args(argv)
     if os.environ.get('PYTHONHASHSEED') != '0':
         env = dict(os.environ, PYTHONHASHSEED='0')
@@ -120,7 +121,7 @@ def main(argv=None):
             flush()
         fuzz_one(data)
 
-    corpus = tempfile.mkdtemp(prefix='ppv-fuzz-%s-' % args.id)
+    corpus = tempfile.mkdtemp(prefix='ppv-fuzz-%s-' % args.id, dir=args.workdir)
     # libFuzzer grows inputs from the empty string very slowly, and Hypothesis rejects buffers that are too short for
     # the strategy: seed the corpus with pseudo-random buffers (a pure function of --seed) of 64..4096 bytes
     import hashlib
